@@ -1,8 +1,10 @@
 --------------------------- MODULE RegistryTrace ---------------------------
 (***************************************************************************)
 (* Linearizability of recorded registry histories.  The harness logs the   *)
-(* invocation and the return of every Add / Lookup call of N goroutines in *)
-(* real-time order (one atomic counter).  The point at which a call takes  *)
+(* invocation and the return of every Add / Register / Lookup call of N     *)
+(* goroutines in real-time order (one atomic counter; Register refuses a    *)
+(* key that is taken).                                                      *)
+(* The point at which a call takes                                         *)
 (* effect is not logged: it is a silent step Lin(g) that TLC may place     *)
 (* anywhere between the call's invocation and its return.  The history is  *)
 (* accepted iff some placement makes every return value the sequential     *)
@@ -38,11 +40,19 @@ TInvoke ==
 \* silent: the pending call of goroutine g takes effect now
 Lin(g) ==
     /\ g \in DOMAIN pending /\ ~pending[g].done
-    /\ IF pending[g].op = "add"
-       THEN /\ amap' = Put(amap, pending[g].key, pending[g].val)
-            /\ pending' = [pending EXCEPT ![g].done = TRUE]
-       ELSE /\ pending' = [pending EXCEPT ![g].done = TRUE, ![g].res = Get(amap, pending[g].key)]
-            /\ UNCHANGED amap
+    /\ CASE pending[g].op = "add" ->
+               /\ amap' = Put(amap, pending[g].key, pending[g].val)
+               /\ pending' = [pending EXCEPT ![g].done = TRUE]
+         \* register: test and set - accepted (1) when the key is free, refused (0, nothing changes) otherwise
+         [] pending[g].op = "register" ->
+               IF Get(amap, pending[g].key) = NoVal
+               THEN /\ amap' = Put(amap, pending[g].key, pending[g].val)
+                    /\ pending' = [pending EXCEPT ![g].done = TRUE, ![g].res = 1]
+               ELSE /\ pending' = [pending EXCEPT ![g].done = TRUE, ![g].res = 0]
+                    /\ UNCHANGED amap
+         [] OTHER ->
+               /\ pending' = [pending EXCEPT ![g].done = TRUE, ![g].res = Get(amap, pending[g].key)]
+               /\ UNCHANGED amap
     /\ UNCHANGED l
 
 TReturn ==
